@@ -358,6 +358,12 @@ def m_where(c, a=None, b=None, **kw):
     if not _sym(c, a, b):
         return a if c else b
     if isinstance(c, SV):
+        it = V.cur()
+        if it is not None and it.ctx_simplify:
+            if it.entails(lift(c)):
+                return a if isinstance(a, SV) else SV(a, _elem(c, a, b))
+            if it.entails(z3.Not(lift(c))):
+                return b if isinstance(b, SV) else SV(b, _elem(c, a, b))
         return SV(V.ite(c, a, b), _elem(c, a, b))
     raise Untranslatable("jnp.where condition type")
 
@@ -398,14 +404,28 @@ def m_clip(x, lo=None, hi=None, **kw):
 @entry("jax.numpy.minimum")
 def m_minimum(a, b):
     if _sym(a, b):
-        return SV(V.ite(sv(a) <= b, a, b), _elem(a, b))
+        c = sv(a) <= b
+        it = V.cur()
+        if it is not None and it.ctx_simplify:
+            if it.entails(lift(c)):
+                return sv(a)
+            if it.entails(z3.Not(lift(c))):
+                return sv(b)
+        return SV(V.ite(c, a, b), _elem(a, b))
     return min(a, b)
 
 
 @entry("jax.numpy.maximum")
 def m_maximum(a, b):
     if _sym(a, b):
-        return SV(V.ite(sv(a) >= b, a, b), _elem(a, b))
+        c = sv(a) >= b
+        it = V.cur()
+        if it is not None and it.ctx_simplify:
+            if it.entails(lift(c)):
+                return sv(a)
+            if it.entails(z3.Not(lift(c))):
+                return sv(b)
+        return SV(V.ite(c, a, b), _elem(a, b))
     return max(a, b)
 
 
@@ -549,3 +569,25 @@ def m_while_loop(cond_fun, body_fun, init_val):
     gx = cond_fun(xs)
     it.assume(z3.Not(lift(gx)) if isinstance(gx, SV) else z3.BoolVal(not bool(gx)))
     return xs
+
+
+SS = {side: z3.Function(f"searchsorted_{side}", z3.ArraySort(V.I, V.R), V.I, V.R, V.I) for side in ("left", "right")}
+
+
+@entry("jax.numpy.searchsorted", tier="T3")
+def m_searchsorted(a, v, side="left", **kw):
+    """T3 contract (requires a sorted): side=left: a[j-1] < v <= a[j]; side=right: a[j-1] <= v < a[j]; 0 <= j <= n.
+    The result is a function of (array, length, value): two lookups of the same value give the same bin."""
+    if not isinstance(a, V.SArr):
+        raise Untranslatable("searchsorted on a non-symbolic array")
+    it = V.cur()
+    ve = to_real(lift(v))
+    j = SS[side](a.arr, a.n, ve)
+    lo_ok = (a.raw(j - 1) < ve) if side == "left" else (a.raw(j - 1) <= ve)
+    hi_ok = (ve <= a.raw(j)) if side == "left" else (ve < a.raw(j))
+    it.assume(z3.And(j >= 0, j <= a.n, z3.Implies(j > 0, lo_ok), z3.Implies(j < a.n, hi_ok)))
+    if it.ctx_simplify:
+        kv = it.known_value(j)
+        if kv is not None:
+            return SV(kv, isinstance(v, SV) and v.elem)
+    return SV(j, isinstance(v, SV) and v.elem)
